@@ -30,9 +30,9 @@ EXTRAS = ["A;loop{B;XOR(X;break|AND(C|D);E)};F", "A;loop{B;XOR(X;break|OR(C|D);E
 
 def case_list(tier, seed):
     if tier == "quick":
-        named = le.corpus_defs() + le.f_defs(5) + le.sampled_defs(250, seed, 6, 14, 300)
+        named = le.corpus_defs() + le.f_defs(5) + le.triple_defs() + le.sampled_defs(250, seed, 6, 14, 300)
     else:
-        named = le.corpus_defs() + le.f_defs(6) + le.sampled_defs(1500, seed, 7, 18, 500)
+        named = le.corpus_defs() + le.f_defs(6) + le.triple_defs() + le.sampled_defs(1500, seed, 7, 18, 500)
     named = named + [("X:" + t, le.parse_text(t)) for t in EXTRAS]
     seen, out = set(), []
     for n, d in named:
@@ -69,7 +69,7 @@ def validate(obs, stats):
         stats["states"] = stats.get("states", 0) + r.distinct
         stats["generated"] = stats.get("generated", 0) + r.generated
         for v in tlc.extract(r.out, "V"):
-            out[s[v[1] - 1]] = v[2]
+            out[s[v[1] - 1]] = "+".join(sorted(v[2])) if v[2] else "ok"
     if any(v is None for v in out):
         raise tlc.TLCError("LoopNest did not judge every nesting")
     return out
